@@ -31,7 +31,7 @@ MANIFEST = {
     "note": "Corpus plans; one fault per execution.",
     "design_ref": "3 (C12)",
 }
-PLANS_Q = ["scan", "custom", "fly", "count", "nested", "locate2"]
+PLANS_Q = ["scan", "custom", "fly", "count", "nested", "locate2", "late_wait2"]
 PLANS_T = PLANS_Q + ["grid", "rel_scan", "list_scan", "neverclose", "two_runs", "mixed"]
 SHARD_TIMEOUT = {"quick": 900, "thorough": 3600}
 OPS = ("set", "trigger", "read", "stage", "unstage", "kickoff", "complete", "collect", "locate")
